@@ -988,6 +988,30 @@ static int apply_patch(cJSON *object, const cJSON *patch, const cJSON_bool case_
         }
     }
 
+    if (path->valuestring[0] == '\0')
+    {
+        /* copy/move to the root: the value becomes the whole document */
+        overwrite_item(object, *value);
+
+        /* delete the node of the value, its contents now belong to the root */
+        cJSON_free(value);
+        value = NULL;
+
+        /* the name of the member isn't needed */
+        if (object->string != NULL)
+        {
+            if (!(object->type & cJSON_StringIsConst))
+            {
+                cJSON_free(object->string);
+            }
+            object->string = NULL;
+            object->type &= ~cJSON_StringIsConst;
+        }
+
+        status = 0;
+        goto cleanup;
+    }
+
     /* Now, just add "value" to "path". */
 
     /* split pointer in parent and child */
